@@ -21,7 +21,7 @@ class Model:
     def clone(self) -> 'Model':
         other = Model()
         other.nodes = [dict(n) for n in self.nodes]
-        other.pub = dict(self.pub)
+        other.pub = {k: (list(v) if isinstance(v, list) else v) for k, v in self.pub.items()}
         other.ngroups = self.ngroups
         other.segments = list(self.segments)
         other.trunks = list(self.trunks)
@@ -69,26 +69,56 @@ class Model:
         return sorted((str(k) for (x, k) in self.pub if x == n))
 
     # ---- connections ----------------------------------------------------------------------------------------------
-    def chain(self, m: int, j: int, pub=None):
-        """Publisher ports upstream of output port (m, j) through placeholders; second value: a placeholder cycle."""
+    # ``pub``: (worker, key) -> one publisher port; (placeholder, index) -> *list* of publisher ports. A placeholder is
+    # transparent: what counts is which worker output ports finally reach a worker input port.
+    def closure(self, m: int, j: int, pub=None):
+        """All publisher ports upstream of output port (m, j), itself included; second value: a placeholder cycle."""
         pub = self.pub if pub is None else pub
-        out, seen, cur = [], set(), (m, j)
-        while cur is not None and cur not in seen:
+        ports, state = set(), {'cyc': False}
+
+        def rec(port, path):
+            if port in path:
+                state['cyc'] = True
+                return
+            ports.add(port)
+            if self.is_w(port[0]):
+                return
+            for up in pub.get(port, ()):
+                rec(up, path | {port})
+
+        rec((m, j), frozenset())
+        return ports, state['cyc']
+
+    def future_ring(self, start: int, pub=None) -> bool:
+        """A ring of placeholders at *node* level (whatever the ports): forml collapses placeholders per node."""
+        pub = self.pub if pub is None else pub
+        ups = {}
+        for (n, _), v in pub.items():
+            if isinstance(v, list):
+                ups.setdefault(n, set()).update(m for m, _ in v if not self.is_w(m))
+        seen, stack = set(), list(ups.get(start, ()))
+        while stack:
+            cur = stack.pop()
+            if cur == start:
+                return True
+            if cur in seen:
+                continue
             seen.add(cur)
-            out.append(cur)
-            if self.is_w(cur[0]):
-                return out, False
-            cur = pub.get(cur)
-        return out, cur is not None
+            stack.extend(ups.get(cur, ()))
+        return False
+
+    def sources(self, m: int, j: int, pub=None):
+        """Worker output ports that reach output port (m, j)."""
+        return sorted(p for p in self.closure(m, j, pub)[0] if self.is_w(p[0]))
 
     def out_subs(self, pub=None):
         """node -> {(output index, subscribed worker, its input key)}; placeholders carry what passes through them."""
         pub = self.pub if pub is None else pub
         res = {i: set() for i in range(len(self.nodes))}
-        for (x, key), (m, j) in pub.items():
+        for (x, key), up in pub.items():
             if not self.is_w(x):
                 continue
-            for a, b in self.chain(m, j, pub)[0]:
+            for a, b in self.closure(*up, pub)[0]:
                 res[a].add((b, x, key))
         return res
 
@@ -96,33 +126,54 @@ class Model:
         """Worker -> worker connections {(publisher, out index, subscriber, input key)} of the direct wiring."""
         pub = self.pub if pub is None else pub
         res = set()
-        for (x, key), (m, j) in pub.items():
-            if not self.is_w(x):
-                continue
-            a, b = self.chain(m, j, pub)[0][-1]
-            if self.is_w(a):
-                res.add((a, b, x, str(key)))
+        for (x, key), up in pub.items():
+            if self.is_w(x):
+                for a, b in self.sources(*up, pub):
+                    res.add((a, b, x, str(key)))
         return res
 
-    def has_future_cycle(self, pub=None) -> bool:
-        pub = self.pub if pub is None else pub
-        return any(self.chain(f, j, pub)[1] for f in self.futures() for j in range(self.nodes[f]['o']))
+    def depth(self) -> int:
+        """Largest number of chained placeholders between two connected workers."""
+        best = 0
+
+        def rec(port, n, path):
+            nonlocal best
+            if port in path:
+                return
+            if self.is_w(port[0]):
+                best = max(best, n)
+                return
+            for up in self.pub.get(port, ()):
+                rec(up, n + 1, path | {port})
+
+        for (x, _), up in self.pub.items():
+            if self.is_w(x):
+                rec(up, 0, frozenset())
+        return best
 
     # ---- legality of new connections ---------------------------------------------------------------------------
     def judge(self, links, train_w=None):
         """Decide a set of new connections [((sub, key), (pub, index))] made by one call.
 
-        Returns (verdict, reason): 'legal' | 'illegal' (one of the five invariants would break) | 'ambiguous' (trained
-        worker wired to a dangling placeholder - the property does not say) | 'unspec' (placeholder-only cycle).
+        Returns (verdict, reason): 'legal' | 'illegal' (one of the five invariants would break) | 'either' (a further
+        publisher registered on a placeholder port without any worker port getting two publishers - the property does
+        not fix whether that is refused) | 'ambiguous' (trained worker wired to a dangling placeholder) | 'unspec'
+        (placeholder-only cycle).
         """
         reasons = set()
-        pub2 = dict(self.pub)
-        for (n, key), (m, j) in links:
-            if (n, key) in pub2:
-                reasons.add('second-publisher')
+        pub2 = {k: (list(v) if isinstance(v, list) else v) for k, v in self.pub.items()}
+        multi = False
+        for (n, key), up in links:
+            if self.is_w(n):
+                if (n, key) in pub2:
+                    reasons.add('second-publisher')
+                else:
+                    pub2[(n, key)] = up
             else:
-                pub2[(n, key)] = (m, j)
-            if n == m:
+                if pub2.get((n, key)):
+                    multi = True
+                pub2.setdefault((n, key), []).append(up)
+            if n == up[0]:
                 reasons.add('self-feed')
         osubs = self.out_subs()
         if train_w is not None:
@@ -140,28 +191,29 @@ class Model:
         def trained2(x):
             return x == train_w or self.trained(x)
 
-        unspec = False
-        ambiguous = False
-        if 'second-publisher' not in reasons:
+        unspec = ambiguous = False
+        if True:  # resolution through placeholders
             for (n, key), (m, j) in links:
                 if self.is_w(n):
-                    affected = [(n, key)]
+                    affected = [(n, key)] if pub2.get((n, key)) == (m, j) else []
                 else:
-                    affected = [(x, k) for (x, k), p in pub2.items() if self.is_w(x) and (n, key) in self.chain(*p, pub2)[0]]
-                    if n != m and any(c[0] == n for c in self.chain(m, j, pub2)[0]):
+                    affected = [(x, k) for (x, k), up in pub2.items() if self.is_w(x) and (n, key) in self.closure(*up, pub2)[0]]
+                    if n != m and (self.closure(m, j, pub2)[1] or self.future_ring(n, pub2)):
                         unspec = True
                 for x, k in affected:
-                    a, _ = self.chain(*pub2[(x, k)], pub2)[0][-1]
-                    if not self.is_w(a):
-                        continue
-                    if a == x:
-                        reasons.add('self-feed')
-                    if trained2(a):
-                        reasons.add('trained-publishing')
-                top = self.chain(m, j, pub2)[0][-1][0]
-                if self.is_w(top) and trained2(top):
-                    ambiguous = True  # only matters when not already illegal
-            if train_w is not None and any(p[0] == train_w for p in pub2.values()):
+                    srcs = self.sources(*pub2[(x, k)], pub2)
+                    if len(srcs) > 1:
+                        reasons.add('second-publisher')
+                    for a, _ in srcs:
+                        if a == x:
+                            reasons.add('self-feed')
+                        if trained2(a):
+                            reasons.add('trained-publishing')
+                if not affected and any(trained2(a) for a, _ in self.sources(m, j, pub2)):
+                    ambiguous = True
+            if train_w is not None and any(
+                train_w == up[0] for k, v in pub2.items() if isinstance(v, list) for up in v
+            ):
                 ambiguous = True
         for r in PRIORITY:
             if r in reasons:
@@ -170,12 +222,17 @@ class Model:
             return 'unspec', 'future-cycle'
         if ambiguous:
             return 'ambiguous', 'trained-to-placeholder'
+        if multi:
+            return 'either', 'placeholder-multi-publisher'
         return 'legal', ''
 
     def apply(self, links) -> None:
-        for sub, pub in links:
-            assert sub not in self.pub
-            self.pub[sub] = pub
+        for (n, key), up in links:
+            if self.is_w(n):
+                assert (n, key) not in self.pub
+                self.pub[(n, key)] = up
+            else:
+                self.pub.setdefault((n, key), []).append(up)
 
     # ---- traversals (Segment tracing) ---------------------------------------------------------------------------
     def _fut_subscribed(self, f: int, p: int, osubs, seen=None) -> bool:
@@ -185,17 +242,15 @@ class Model:
             return False
         seen.add(f)
         for k in range(self.nodes[f]['i']):
-            up = self.pub.get((f, k))
-            if up is None:
-                continue
-            m = up[0]
-            if m == p:
-                return True
-            if self.is_w(m):
-                if any(x == m for (_, x, _) in osubs[p]):
+            for up in self.pub.get((f, k), ()):
+                m = up[0]
+                if m == p:
                     return True
-            elif self._fut_subscribed(m, p, osubs, seen):
-                return True
+                if self.is_w(m):
+                    if any(x == m for (_, x, _) in osubs[p]):
+                        return True
+                elif self._fut_subscribed(m, p, osubs, seen):
+                    return True
         return False
 
     def successors(self, n: int, osubs, mappers: bool, extra=None):
